@@ -53,6 +53,11 @@ def main():
     if ok and props:
         rc, st = sh("git -C /repo status --short")
         assert st.strip() == "", "/repo not clean: " + st
+        # the harness and the driver must build on the CLEAN tree, else every "catch" below would be our own breakage
+        rc, o = sh("cargo build --release --offline 2>&1 | tail -3", cwd=os.path.join(ROOT, "harness"))
+        assert "error" not in o, "harness does not build on the clean tree: " + o
+        rc, o = sh("lake build tymed 2>&1 | tail -3", cwd=os.path.join(ROOT, "lean"))
+        assert "error" not in o, "driver does not build on the clean tree: " + o
         rc, o = sh("git -C /repo apply %s" % patch)
         try:
             for p in props:
